@@ -489,6 +489,11 @@ def gen_string(rng, name):
         else:
             d = {"text": "616263", "ascii": False, "wide": False, "nocase": False, "fullword": False, "xor": None,
                  "b64": None}
+        if d["ascii"] and d["wide"] and d["fullword"] and "00" in [d["text"][i:i + 2] for i in range(0, len(d["text"]), 2)]:
+            # `ascii wide fullword` and a text with NULs: where the ascii form is a prefix of the wide form libyara
+            # verifies the ascii form first and, when its delimiter test fails, never tries the wide form
+            # (corpus/C07/quirk_ascii_prefix_of_wide.json): not generated
+            d["fullword"] = False
         if d["xor"] is not None and d["wide"] and not d["ascii"]:
             # libyara also accepts the xored *ascii* form of a wide-only xor string when an atom of the wide form
             # happens to hit (its verification tries the ascii comparison whatever the modifiers): not generated
